@@ -33,6 +33,9 @@ Obs == /\ Ev.t = "obs" /\ UNCHANGED <<seq, mm>>
           THEN Fail("DMap " \o Ev.d \o ": a read disagrees with what was done to this DMap (after " \o Ev.after \o ")")
           ELSE IF SeqSet(Ev.scan) # PresentOf(Ev.d) THEN Fail("DMap " \o Ev.d \o ": a scan does not yield exactly its keys (after " \o Ev.after \o ")")
           ELSE IF SeqSet(Ev.stored) # PresentOf(Ev.d) THEN Fail("DMap " \o Ev.d \o ": some member's fragments hold other keys than its own (after " \o Ev.after \o ")")
+          \* where the number of copies is reported: every key is stored as often as the replica count says
+          ELSE IF "copies" \in DOMAIN Ev /\ \E x \in SeqSet(Ev.copies) : x.n # Ev.want
+               THEN Fail("DMap " \o Ev.d \o ": a key lost or gained a copy (after " \o Ev.after \o ")")
           ELSE Ok
 Next == i <= Len(Trace) /\ i' = i + 1 /\ (Reset \/ Op \/ Obs)
 Spec == i = 1 /\ err = "" /\ seq = 0 /\ mm = <<>> /\ [][Next]_vars
